@@ -256,6 +256,64 @@ def two_filesystems_section(pid, res, count):
                 subprocess.run(["umount", "-l", mp], stdout=subprocess.PIPE, stderr=subprocess.PIPE)
 
 
+def foreign_owner_section(pid, res, count):
+    """C02 / C07 for a runner that is NOT root: the replicas belong to the account that runs `bisync`, but one file of replica B was
+    put there by ANOTHER account (mode 0644: readable by everyone, as in a shared directory or after a restore). Readable is
+    readable — the scan must see the file: both versions of a divergent edit survive, also (C07) when the archive was damaged
+    (seeds C07-N / C13-N: files opened with O_NOATIME, which the kernel refuses with EPERM to anyone but the owner; the scan skips
+    what it cannot hash, the path looks one-sided and the other replica's version is copied over it).
+    Skipped (counted) when not root or without setpriv."""
+    import shutil as _sh
+    if os.geteuid() != 0 or not _sh.which("setpriv"):
+        count("foreign-owner/skipped")
+        return
+    u1, u2 = 23001, 23002
+    for fault in ((None, "truncate") if pid == "C07" else (None,)):
+        with Sandbox(pid) as sb:
+            a, b = sb.path("A"), sb.path("B")
+            os.chmod(sb.dir, 0o755)
+            tree = {"report.txt": b"report v0\n", "sub/minutes.txt": b"minutes v0\n", "keep.txt": b"kept\n"}
+            sb.write_tree(a, tree); sb.write_tree(b, tree)
+            for top in (a, b, sb.home):
+                for d_, dn, fn in os.walk(top):
+                    os.chown(d_, u1, u1)
+                    for f_ in fn:
+                        os.chown(os.path.join(d_, f_), u1, u1)
+            prefix = ["setpriv", "--reuid", str(u1), "--regid", str(u1), "--clear-groups"]
+            rc1, o1, e1 = sb.run(["bisync", a, b], prefix=prefix)
+            if rc1 != 0:
+                count("foreign-owner/skipped-first-run-failed")
+                continue
+            va = {"report.txt": b"report edited on A by the runner\n", "sub/minutes.txt": b"minutes edited on A\n"}
+            vb = {"report.txt": b"report replaced on B by another account\n", "sub/minutes.txt": b"minutes replaced on B by another account\n"}
+            for rel, data in va.items():
+                p_ = os.path.join(a, rel); open(p_, "wb").write(data); os.chown(p_, u1, u1)
+            for rel, data in vb.items():
+                p_ = os.path.join(b, rel); os.remove(p_); open(p_, "wb").write(data); os.chown(p_, u2, u2); os.chmod(p_, 0o644)
+            lab = None
+            if fault:
+                ap = sb.archive_path()
+                if ap:
+                    raw = open(ap, "rb").read(); open(ap, "wb").write(raw[:len(raw) // 2]); os.chown(ap, u1, u1); lab = "archive truncated to half"
+            before = set(sb.read_tree(a).values()) | set(sb.read_tree(b).values())
+            paths_before = set(sb.read_tree(a)) | set(sb.read_tree(b))
+            rc2, o2, e2 = sb.run(["bisync", a, b], prefix=prefix)
+            ta, tb = sb.read_tree(a), sb.read_tree(b)
+            count("foreign-owner/" + ("archive-fault" if fault else "trusted"))
+            rep = {"history": ["A, B, $HOME owned by uid 23001; bisync as 23001", "A: report.txt, sub/minutes.txt edited by 23001",
+                               "B: the same two files REPLACED by files of uid 23002 (0644)"] + ([lab] if lab else []) + ["bisync as 23001"],
+                   "rc": rc2, "stderr": e2.decode("utf-8", "replace")[-400:], "A": sorted(ta), "B": sorted(tb)}
+            if rc2 == 0 or b"had conflicts" in e2:
+                for side_, t_ in (("A", ta), ("B", tb)):
+                    lost = [c_[:40] for c_ in before if c_ not in t_.values()]
+                    if lost:
+                        res["violations"].append(("version-lost", f"after the run (rc {rc2}) side {side_} no longer holds {len(lost)} version(s) that existed before it, e.g. {lost[0]!r}: a readable file owned by another account was not seen by the scan", rep))
+                        break
+                gone = sorted(p_ for p_ in paths_before if p_ not in ta or p_ not in tb)
+                if gone:
+                    res["violations"].append(("path-disappeared", f"after the run {gone} are missing on a side", rep))
+
+
 def non_utf8_section(pid, res, count):
     """C02 on names that are not valid UTF-8 (oracle only: the model's names are strings). Whatever the tool does with such a
     name — today every run fails at the save of the record, after converging the trees — a file created on ONE side must never be
@@ -622,6 +680,8 @@ def run(pid, tier, seed, rundir, model_run):
         non_utf8_section(pid, res, count)
     if pid in ("C02", "C06"):
         two_filesystems_section(pid, res, count)
+    if pid in ("C02", "C07"):
+        foreign_owner_section(pid, res, count)
     ops_f.close()
     with open(os.path.join(rundir, "impl.txt"), "w") as f:
         f.write("\n".join(impl_lines) + ("\n" if impl_lines else ""))
